@@ -1064,3 +1064,31 @@ pub fn crash_point_scenario(base_seed: u64, index: u64) -> (Scenario, usize, usi
     let chosen = &pts[p % pts.len()];
     (inject(&base, chosen), p % pts.len(), pts.len())
 }
+
+
+/// C12: a genuine ask cycle is detected (one participant panics); afterwards the survivors keep
+/// asking each other and the dead victim from inside handlers. Global state must be intact.
+pub fn cycle_then_followup(g: &mut G) -> Scenario {
+    let len = g.range(2, 3) as usize;
+    let extra = g.range(0, 1) as usize; // bystanders
+    let n = len + extra;
+    let actors: Vec<ActorSpec> = (0..n).map(|_| ActorSpec { cap: Some(g.pick(&[2usize, 4, 32])), ..Default::default() }).collect();
+    let mut clients: Vec<Vec<Op>> = Vec::new();
+    let m = chain_msg(g, 0, len, 0, false);
+    clients.push(vec![Op::Tell { h: 0, m }]);
+    // follow-up rounds, separated in time
+    let mut c = vec![Op::Sleep(50)];
+    for _ in 0..g.range(2, 5) {
+        let from = g.below(n as u64) as u32;
+        let to = g.below(n as u64) as u32;
+        if from == to {
+            continue;
+        }
+        let inner = Msg::work(g.mid());
+        let ask = if g.chance(500) { Op::Ask { h: 50 + to, m: inner } } else { Op::AskT { h: 50 + to, m: inner, ms: 50 } };
+        c.push(Op::Tell { h: 50 + from, m: Msg::with(g.mid(), vec![ask]) });
+        c.push(Op::Sleep(g.range(5, 20)));
+    }
+    clients.push(c);
+    Scenario { actors, clients, probes: vec![], peer_slots: true, erase: None, expect: None }
+}
